@@ -230,7 +230,13 @@ class MandolineS(Scenario):
             m, p = _plt(work, "plt_m3", seed)
         pos = None
         if self.kind != "2d":
-            pos = m.geo_low[1] + 0.37 * (m.geo_high[1] - m.geo_low[1])
+            dy = m.dx[0][1]
+            face = m.geo_low[1] + 4 * dy          # boxes are 4 cells wide: a box face of level 0
+            # an ordinary position, then planes on and a hair beside the outermost cell centres of a box
+            # (within / just outside the slicer's snapping tolerance) and on the box face
+            pos = [m.geo_low[1] + 0.37 * (m.geo_high[1] - m.geo_low[1]),
+                   face - 0.5 * dy + 4e-7 * dy, face + 0.5 * dy - 4e-7 * dy, face - 0.5 * dy, face,
+                   face - 0.5 * dy + 3e-6 * dy]
         return {"p": p, "pos": pos}
 
     def run(self, ctx, out, serial=False):
@@ -241,13 +247,19 @@ class MandolineS(Scenario):
             r = md.slice(fformat="return")
             return {"values": {k: np.asarray(v) for k, v in r.items()}, "paths": []}
         if self.kind == "3d":
-            r = md.slice(normal=1, pos=ctx["pos"], fformat="return")
+            vals = {}
+            for j, pos in enumerate(ctx["pos"]):
+                r = md.slice(normal=1, pos=pos, fformat="return")
+                vals.update({f"{j}:{k}": np.asarray(v) for k, v in r.items()})
             o = os.path.join(out, "slice_arr")
-            md.slice(normal=1, pos=ctx["pos"], outfile=o, fformat="array")
-            return {"values": {k: np.asarray(v) for k, v in r.items()}, "paths": [o + ".npz"]}
-        o = os.path.join(out, "slice_plt")
-        md.slice(normal=1, pos=ctx["pos"], outfile=o, fformat="plotfile")
-        return {"values": None, "paths": [o]}
+            md.slice(normal=1, pos=ctx["pos"][0], outfile=o, fformat="array")
+            return {"values": vals, "paths": [o + ".npz"]}
+        paths = []
+        for j, pos in enumerate(ctx["pos"][:3]):
+            o = os.path.join(out, f"slice_plt{j}")
+            md.slice(normal=1, pos=pos, outfile=o, fformat="plotfile")
+            paths.append(o)
+        return {"values": None, "paths": paths}
 
 
 class PestleS(Scenario):
